@@ -16,11 +16,15 @@ RULE = ("conversion cases: Array or 1-3 component Vector (dtypes float64/32 int6
         "energy/wavenumber pairs).  Oracle: independent unit model: a.to(u) is the same physical quantity (rtol 1e-9, "
         "64 eps for float32), a is bit-identical afterwards (values buffer, unit, name), a.to(u).to(a.unit) ~ a, "
         "a.to(b).to(c) ~ a.to(c), Vector components = component-wise conversion.  catalogue: every unit defined by the "
-        "default configuration x every spelling, exhaustively: value in cgs within 1e-3 of the accepted physical value, "
-        "equal to the frozen table exactly (1e-12), equivalent spellings give == units.  non-trivial = conversion "
+        "default configuration x every spelling, exhaustively: value in cgs within the stated latitude of the accepted physical "
+        "value (masses 1e-3, nominal radii and luminosities 1e-6, radiation constant 1e-4), all spellings the same number, "
+        "equivalent spellings give == units, every symbol of the independent table equals its long name and its table value; "
+        "the same constants in a fresh interpreter whose HOME already holds a user configuration (complete, or lacking "
+        "configure_constants).  non-trivial = conversion "
         "ratio != 1 (or an incompatible pair); distinct = distinct canonical JSON.")
 ASSUMPTIONS = [
-    "accepted values: IAU 2015 nominal solar/planetary constants, CODATA radiation constant; 1e-3 relative latitude",
+    "accepted values: IAU 2015 nominal solar/planetary constants, CODATA radiation constant; latitude per constant (see RULE); "
+    "within it the reference model adopts the live value, so that an update of a constant is not reported as a wrong conversion",
     "pint's parsec (au/tan 1\") differs from the IAU definition by 8e-12: rtol 1e-9",
 ]
 osyris = None
@@ -36,7 +40,7 @@ def conv_case_st(draw):
     ua, ub, rel = draw(vs.unit_pairs())
     kind = draw(st.sampled_from(["A", "A", "V"]))
     dt = draw(st.sampled_from(vs.DTYPES))
-    shape = draw(vs.shapes)
+    shape = draw(st.one_of(vs.shapes, vs.shapes, vs.shapes, st.sampled_from([[0], [0, 3]])))
     if kind == "A":
         obj = draw(vs.array_specs(units=[ua], dtypes=[dt], shape=shape, specials=True))
     else:
@@ -189,6 +193,16 @@ def _catalogue_cases():
     for fam, us in um.FAMILIES.items():
         for u in us:
             out.append({"t": "table", "unit": u})
+    # every symbol of the independent table against the live registry, and against its long name (a definition added to
+    # the configuration must not take over the symbol of an existing unit, e.g. G, N, Pa, mm, min)
+    for sym, longname in um.SYMBOL.items():
+        if longname and sym not in um.ALL_UNITS:
+            out.append({"t": "table", "unit": sym})
+        if longname and longname != sym:
+            out.append({"t": "alias", "s1": sym, "s2": longname})
+    # configurations: the user's file may pre-exist and may lack configure_constants
+    for how in ("partial_user_config", "populated_user_config"):
+        out.append({"t": "config", "how": how})
     # spellings in which a blank means multiplication; the compact string without the blank is a *different*
     # (prefixed) unit, and both are asked in both orders within this process
     for spaced, same_as, compact, compact_same_as in [("m s**-1", "m/s", "ms**-1", "1/millisecond"),
@@ -210,11 +224,13 @@ def catalogue(case, r):
         except Exception as e:
             r.bad(["catalogue-raises", case["name"], case["spelling"]], repr(e))
             return
-        if abs(got / val - 1) > 1e-3:
-            r.bad(["constant-value", case["name"]], f"1 {case['spelling']} = {got!r} {base}, accepted {val!r}")
-        frozen = um.TABLE[case["name"]][0]
-        if abs(got / frozen - 1) > 1e-12:
-            r.bad(["constant-drift", case["name"]], f"1 {case['spelling']} = {got!r} {base}, frozen table {frozen!r}")
+        tolv = um.ACCEPTED[case["name"]][1]
+        if abs(got / val - 1) > tolv:
+            r.bad(["constant-value", case["name"]], f"1 {case['spelling']} = {got!r} {base}, accepted {val!r} (latitude {tolv})")
+        # every spelling of the constant is the same number (the model takes its factor from the canonical name)
+        live = um.TABLE[case["name"]][0]
+        if abs(got / live - 1) > 1e-12:
+            r.bad(["constant-spellings-disagree", case["name"]], f"1 {case['spelling']} = {got!r} {base}, 1 {case['name']} = {live!r}")
         # the same through the unit object and to_base_units-free path: Array.to with a Unit object
         try:
             got2 = float(osyris.Array(values=2.0, unit=osyris.units(case["spelling"])).to(osyris.units(base)).values)
@@ -243,10 +259,13 @@ def catalogue(case, r):
                 r.bad(["spellings-differ", "prefixed-unit"], f"units({c1!r}) = {osyris.units(c1)!r} != units({c2!r}) = "
                       f"{osyris.units(c2)!r} after asking {case['order']}")
                 return
-        except um.UnknownUnit:
-            pass
+        except um.UnknownUnit as e:
+            # the unit is no longer one the independent table knows: its symbol was given another meaning
+            r.bad(["spelling-unknown-unit", str(case["order"])], repr(e))
         except Exception as e:
             r.bad(["spelling-rejected", str(case["order"])], repr(e))
+    elif t == "config":
+        _config_case(case, r)
     elif t == "alias":
         try:
             u1, u2 = osyris.units(case["s1"]), osyris.units(case["s2"])
@@ -269,6 +288,51 @@ def catalogue(case, r):
             return
         if abs(got / f - 1) > 1e-9:
             r.bad(["unit-table-mismatch", u], f"1 {u} = {got!r} {base}; independent table says {f!r}")
+
+
+_CONFIG_SCRIPT = """
+import json, sys
+import osyris
+out = {}
+for name, base in %r:
+    out[name] = float((1.0 * osyris.units(name)).to(base).magnitude)
+print("CONSTANTS=" + json.dumps(out))
+"""
+
+
+def _config_case(case, r):
+    """A fresh interpreter with a prepared HOME: an older user file that only defines additional_variables, or a file
+    that is already there; the nine defined units must have their default values either way."""
+    import json
+    import os
+    import shutil
+    import subprocess
+    import sys
+
+    home = env.scratch_dir("home_")
+    try:
+        cfg = os.path.join(home, ".osyris")
+        os.makedirs(cfg)
+        src = env.osyris_src()
+        if case["how"] == "partial_user_config":
+            with open(os.path.join(cfg, "config_osyris.py"), "w") as f:
+                f.write("def additional_variables(data):\n    pass\n")
+        else:
+            shutil.copyfile(os.path.join(src, "osyris", "config", "defaults.py"), os.path.join(cfg, "config_osyris.py"))
+        pairs = [(n, "cm**{}*g**{}*s**{}*K**{}".format(*[float(x) for x in um.TABLE[n][1]])) for n in um.ACCEPTED]
+        envv = dict(os.environ, HOME=home, PYTHONPATH=src, MPLBACKEND="Agg", MPLCONFIGDIR=os.path.join(home, "mpl"))
+        p = subprocess.run([sys.executable, "-c", _CONFIG_SCRIPT % (pairs,)], env=envv, capture_output=True, text=True, timeout=300)
+        line = [ln for ln in p.stdout.splitlines() if ln.startswith("CONSTANTS=")]
+        if p.returncode != 0 or not line:
+            r.bad(["config", case["how"], "import-fails"], (p.stderr or p.stdout)[-400:])
+            return
+        got = json.loads(line[0][len("CONSTANTS="):])
+        for name, (val, tolv) in um.ACCEPTED.items():
+            if abs(got[name] / val - 1) > tolv:
+                r.bad(["config", case["how"], "constant-value", name], f"1 {name} = {got[name]!r}, accepted {val!r}")
+                return
+    finally:
+        shutil.rmtree(home, ignore_errors=True)
 
 
 def subs(ctx):
